@@ -28,6 +28,18 @@ pub fn rbool(b: bool) -> u64 {
     }
 }
 
+/// Result code of a `CloseStatus`: decided by the variant itself; the two accessor methods must
+/// agree with it (77 = an accessor lies).
+pub fn close_code(c: futures_intrusive::channel::CloseStatus) -> u64 {
+    use futures_intrusive::channel::CloseStatus::*;
+    let newly = matches!(c, NewlyClosed);
+    let already = matches!(c, AlreadyClosed);
+    if c.is_newly_closed() != newly || c.is_already_closed() != already {
+        return 77;
+    }
+    rbool(newly)
+}
+
 /// Marker printed in a queue snapshot for a node that belongs to no live future.
 pub const DANGLING: u64 = 9999;
 
